@@ -249,6 +249,12 @@ def run_threads(ctx, rounds):
         checked = [0]
 
         def worker(wid, rr):
+            try:
+                _work(wid, rr)
+            except Exception as e:  # noqa: BLE001
+                errors.append({"thread": wid, "raised": "%s: %s" % (type(e).__name__, e)})
+
+        def _work(wid, rr):
             n = size + wid
             doc = [{"id": i, "w": wid} for i in range(n)]
             for q in rr.sample(qs, 3):
